@@ -41,7 +41,9 @@ def rules(model: Model, tier: str) -> List[RuleResult]:
     _connect(model, G)
     refresh_consistency(model, G)
     _index_space(model, X)
-    return [V, S, H, R3, K, G, X]
+    from ..rules import substitution as _subst
+    _sub = _subst.rules(model, PROP, tier)
+    return [V, S, H, R3, K, G, X, *_sub]
 
 
 def _validation(model: Model, V: RuleResult):
